@@ -112,6 +112,7 @@ func (u *universe) judge(m string) verdict {
 	if k == nil {
 		return bad("accepted-unknown-signer", "Verify succeeded but camliSigner %q names no known public key", signer)
 	}
+	// (no payload is ever signed by both keys, so "who" identifies the maker)
 	if who&(1<<uint(k.idx)) == 0 {
 		return bad("accepted-signature-of-other-key", "Verify succeeded although the key named by camliSigner (key %d) never signed these payload bytes (another key did)", k.idx+1)
 	}
